@@ -100,3 +100,32 @@ pub use self::transform::Translation;
 
 /// Storage container for low level point data.
 pub type RawValues = Vec<RecordValue>;
+
+/// Verification hooks, only compiled with `--cfg e57_verif`.
+/// Exposes the crate-private page layer to an external harness and
+/// offers a thread-local cap for the number of points per data packet.
+#[cfg(e57_verif)]
+#[doc(hidden)]
+pub mod verif {
+    pub use crate::paged_reader::PagedReader;
+    pub use crate::paged_writer::PagedWriter;
+    use std::cell::Cell;
+
+    thread_local! {
+        static MAX_PACKET_POINTS: Cell<Option<usize>> = const { Cell::new(None) };
+    }
+
+    /// Caps the number of points the point cloud writer puts into one data packet.
+    /// Only affects point cloud writers created afterwards on the same thread.
+    /// The cap can only lower the value calculated by the library, never raise it.
+    pub fn set_max_packet_points(cap: Option<usize>) {
+        MAX_PACKET_POINTS.with(|c| c.set(cap));
+    }
+
+    pub(crate) fn cap_packet_points(computed: usize) -> usize {
+        match MAX_PACKET_POINTS.with(|c| c.get()) {
+            Some(cap) => computed.min(cap.max(1)),
+            None => computed,
+        }
+    }
+}
